@@ -219,38 +219,13 @@ def control_worker(items):
     return out
 
 
-KNOWN_A = "F-C15-a"
-
 # fault classes that can sit inside a flow definition (its sheet, its create_flow row): each must be exercised in
 # both redefinition positions in every tier (self-check in run())
 REDEF_CLASSES = ["unterminated block", "mismatched block", "edge from unknown row", "loop without variable",
                  "go_to wrong number of targets", "go_to unknown target", "missing sheet", "missing data row",
                  "data_row_id without data_sheet", "missing template argument", "empty message text", "over-long value",
-                 "over-long category name", "malformed webhook headers", "invalid webhook method", "conflicting uuids"]
-
-
-def known_cases():
-    """deterministic known-finding stream: problems the tool detects and logs at ERROR level"""
-    import random
-
-    out = []
-    wb = W.base_plain(random.Random(0))
-    w = W.wb_copy(wb)
-    w["sheets"]["content_index"]["rows"].append({"type": "create_flows", "sheet_name": "main"})
-    # pattern = the robust part of the report: an ERROR-level record (and the offending value where the message names one)
-    out.append({"what": "content index row with an invalid type", "wb": w, "pattern": r"^ERROR: [^\n]*create_flows"})
-    w = W.wb_copy(wb)
-    w["sheets"]["main"]["rows"] += [
-        {"row_id": "x1", "type": "start_new_flow", "from": "m8", "message_text": "other flow"},
-        {"row_id": "x2", "type": "send_message", "from": "x1", "condition": "maybe", "message_text": "after"},
-    ]
-    out.append({"what": "edge from start_new_flow with a condition other than Completed/Expired", "wb": w,
-                "pattern": r"^ERROR: [^\n]*start_new_flow"})
-    w = W.wb_copy(W.base_webhook(random.Random(0)))
-    w["sheets"]["hooks"]["rows"][2]["condition"] = "Sucess"
-    out.append({"what": "edge from call_webhook with a condition other than Success/Failure", "wb": w,
-                "pattern": r"^ERROR: [^\n]*call_webhook"})
-    return out
+                 "over-long category name", "malformed webhook headers", "invalid webhook method", "conflicting uuids",
+                 "bad outcome condition", "unknown row type", "unknown contact property"]
 
 
 KNOWN_B = "F-C15-b"
@@ -284,15 +259,6 @@ def known_replaced_campaign_worker(items):
         out.append({"what": it["what"], "rc": res["rc"], "file": res["out"] is not None, "reported": problem_reported(res),
                     "twin_detected": tw["rc"] not in (0, None) and tw["out"] is None and problem_reported(tw),
                     "observed": slim(res), "twin_observed": slim(tw)})
-    return out
-
-
-def known_worker(items):
-    out = []
-    for it in items:
-        res = W.run_cli(it["wb"], False)
-        out.append({"what": it["what"], "named": named(it["pattern"], res), "rc": res["rc"], "file": res["out"] is not None,
-                    "observed": slim(res)})
     return out
 
 
@@ -363,26 +329,27 @@ def run(ck: core.Check):
             r["condition_name"] = "C" * 115
     bases_ctl = bases + [edge]
     items.append({"wb": edge, "name": edge["name"], "sentinel": False})
+    # controls for the injections that need a sheet without `message_text` column: every base with the main-argument
+    # columns of its flow sheets spelt out is still valid, and so are the outcome words in another capitalisation
+    for b in bases:
+        x = F.with_explicit_columns(b, A.abstract(b)[1])
+        x["name"] = b["name"] + " (main-argument columns spelt out)"
+        bases_ctl.append(x)
+        items.append({"wb": x, "name": x["name"], "sentinel": False})
+    caps = W.wb_copy(next(b for b in bases if b["name"] == "webhook"))
+    caps["name"] = "webhook, outcome words in capitals"
+    for r in caps["sheets"]["hooks"]["rows"]:
+        if r.get("condition") in ("Success", "Failure"):
+            r["condition"] = r["condition"].upper()
+    caps["sheets"]["second"]["rows"].append({"row_id": "s4", "type": "send_message", "from": "s3", "condition": "EXPIRED", "message_text": "late"})
+    bases_ctl.append(caps)
+    items.append({"wb": caps, "name": caps["name"], "sentinel": False})
     for r in [x for sh in par.pmap(control_worker, core.shard(items, par.NPROC)) for x in sh]:
         ck.case(("control", r["name"], r["sentinel"]), sample={"control": r["name"], "flows": r["flows"]})
         ck.count("control runs")
         for f in r["fails"]:
             wb = next(b for b in bases_ctl if b["name"] == r["name"])
             ck.violation(f, {"kind": "control", "workbook": wb, "sentinel": r["sentinel"], "observed": r["observed"]})
-
-    # known-finding stream (deterministic): detected, logged at ERROR level, command goes on
-    kc = known_cases()
-    for it, r in zip(kc, [x for sh in par.pmap(known_worker, [[c] for c in kc]) for x in sh]):
-        ck.case(("known", it["what"]))
-        ck.count("known-finding stream")
-        if r["named"] and r["rc"] == 0 and r["file"]:
-            ck.known(KNOWN_A, "a problem the tool detects and logs at ERROR level (invalid content-index row type, wrong condition on a "
-                     "start_new_flow / call_webhook edge) does not stop the command: status 0 and the output file is written",
-                     {"what": it["what"], "observed": r["observed"]})
-        elif r["named"] and (r["rc"] == 0 or r["file"]):
-            ck.violation("detected problem (ERROR record): status and output file disagree with each other",
-                         {"kind": "fault", "class": "error-level detection", "pattern": it["pattern"], "workbook": it["wb"],
-                          "sentinel": False, "observed": r["observed"]})
 
     # known-finding stream F-C15-b (deterministic): a fault that only CampaignParser.parse() detects, inside a campaign
     # definition that a later row replaces.  Attribution: trigger (replaced definition) + pattern (status 0, file
